@@ -15,6 +15,12 @@
 (*         "mod": they follow the last modification                        *)
 (*   by    a second node of the same type defined between the definition   *)
 (*         and the modifications (bystander), or [t |-> "nil"]             *)
+(*   via   "direct": the modifications address the defined node itself     *)
+(*         "local" : the node is defined (with its constraint lines) in a  *)
+(*                   group, imported elsewhere by `{?group.*}` and the     *)
+(*                   modifications address the imported copy               *)
+(*         "source": the same with the definition in a `$source` file and  *)
+(*                   an import `{src?*}`                                   *)
 (*                                                                         *)
 (* Literals: [t |-> "num", n |-> <<num,den>>, u |-> unit, k |-> ulps]      *)
 (*   stands for n*(1 + k*1e-7) written in unit u ("" = no unit written),   *)
@@ -163,7 +169,7 @@ InBounds(sh, dims) == /\ Len(sh) = Len(dims)
 \*   all      every constraint line holds of the final value
 \*   lastonly of several !condition / several !format lines only the last one counts
 \*   each     a !condition holds after EVERY assignment ("after each definition or modification")
-Ideal3(p) ==
+Ideal3D(p) ==
   LET asg == Assigned(p) IN
   IF asg = <<>> THEN "F"                                  \* declared nodes have a value
   ELSE LET f == Last(asg) IN
@@ -181,12 +187,19 @@ Ideal3(p) ==
            each  == AndAll3({all} \cup {ICond(p.nu, v, c) : v \in vals, c \in Range(conds)})
        IN Agree(Agree(all, lastonly), each)
 
+\* an imported node is a node of the environment like any other and keeps the constraint lines of its
+\* definition: the ORIGINAL (never modified: its final value is the definition's) and the modified COPY
+\* must both satisfy them (a remote original is judged when its source file is parsed)
+Ideal3(p) == IF p.via = "direct" THEN Ideal3D(p)
+             ELSE AndAll3({Ideal3D([p EXCEPT !.mods = <<>>]), Ideal3D(p)})
+
 Ideal(p) == CASE Ideal3(p) = "T" -> "accept" [] Ideal3(p) = "F" -> "reject" [] OTHER -> "unspec"
 
 \* why a program is unspecified (feature labels, for the statistics only)
 AmbTags(p) ==
   LET asg == Assigned(p) IN
   IF asg = <<>> \/ Ideal3(p) # "U" THEN {}
+  ELSE IF Ideal3D(p) # "U" THEN {"imported_original"}
   ELSE IF IsArr(p) THEN {"intermediate_dims"}
   ELSE IF Last(asg).t = "none" THEN {"final_none"}
   ELSE LET f == Last(asg)
@@ -255,7 +268,7 @@ MNodeOK(ty, nu, v, cs, devs) ==
           IF "last_format_wins" \in devs THEN fmtOK(Last(fmts)) ELSE \A c \in Range(fmts) : fmtOK(c)
 
 \* "accept" | "reject" | "na" (final none: not modelled)
-Mach(p, devs) ==
+MachD(p, devs) ==
   LET asg == Assigned(p) IN
   IF asg = <<>> THEN "reject"                             \* node.defined and node.value is None
   ELSE IF IsArr(p) THEN                                   \* cast_value checks the bounds at every assignment
@@ -268,6 +281,15 @@ Mach(p, devs) ==
            okX == MNodeOK(p.ty, p.nu, Last(asg), IF toY THEN <<>> ELSE p.cons, devs)
            okY == p.by.t = "nil" \/ MNodeOK(p.ty, p.nu, p.by, IF toY THEN p.cons ELSE <<>>, devs)
        IN IF okX /\ okY THEN "accept" ELSE "reject"
+
+\* ImportNode.parse copies the selected nodes (options, condition, format, dimension included) under the
+\* new path and queues them; the copies are appended to target.nodes like defined nodes, modified like
+\* them and pass through the same validation loop; the original stays in the environment (local) or was
+\* validated by the parse of its source file (remote)
+Mach(p, devs) ==
+  IF p.via = "direct" THEN MachD(p, devs)
+  ELSE LET o == MachD([p EXCEPT !.mods = <<>>], devs)  c == MachD(p, devs)
+       IN IF o = "reject" \/ c = "reject" THEN "reject" ELSE IF o = "na" \/ c = "na" THEN "na" ELSE "accept"
 
 \* the deviations that decide this program's machine verdict, and their feature words
 Causal(p) == {d \in Devs : Mach(p, Devs) # Mach(p, Devs \ {d})}
@@ -415,14 +437,24 @@ OrderOK(cs, c) == IF cs = <<>> THEN TRUE
 ValLvl(q) == IF \E l \in Range(Assigned(q)) : IsFine(q, l) THEN 1 ELSE 3
 \* lvs: the levels of the constraint lines chosen so far plus the candidate's
 Cap(q, lvs) == LET m == MinOf({MaxCons, ValLvl(q)} \cup lvs)
-               IN IF q.by.t # "nil" \/ q.place = "mod" THEN m - 1 ELSE m
+               IN IF q.by.t # "nil" \/ q.place = "mod" \/ q.via # "direct" THEN m - 1 ELSE m
 
 (* arrays: dimension bounds *)
-Dims1 == {<< <<2, 2>> >>, << <<2, 3>> >>, << <<-1, 2>> >>, << <<2, -1>> >>, << <<-1, -1>> >>}
-Dims2 == {<< <<2, 2>>, <<1, 2>> >>, << <<1, 2>>, <<2, -1>> >>}
-Shapes(dims) == IF Len(dims) = 1 THEN {<<n>> : n \in 1..4}
-                ELSE {<<r, c>> : r \in 1..3, c \in 1..3} \cup {<<2>>}      \* <<2>>: a dimension is missing
-DimsOf(f) == IF ~f.arr THEN {<<>>} ELSE Dims1 \cup (IF f.ty \in {"int", "str"} THEN Dims2 ELSE {})
+(* every dimension is exact [2], an interval [2:3], bounded above [:2], below [2:] or free [:];        *)
+(* multi-dimensional declarations mix these forms in every order; the shapes put every single          *)
+(* dimension below / on / above its bounds while the others stay at 2                                    *)
+Forms1 == {<<2, 2>>, <<2, 3>>, <<-1, 2>>, <<2, -1>>, <<-1, -1>>}
+Forms3 == IF Rich THEN {<<2, 2>>, <<-1, -1>>, <<-1, 3>>} ELSE {<<2, 2>>, <<-1, -1>>}
+Dims1 == {<<f>> : f \in Forms1}
+Dims2 == {<<f, g>> : f \in Forms1, g \in Forms1}
+Dims3 == {<<f, g, h>> : f \in Forms3, g \in Forms3, h \in Forms3}
+Twos(n) == [i \in 1..n |-> 2]
+Cross(n) == {[Twos(n) EXCEPT ![i] = v] : i \in 1..n, v \in 1..4}
+Shapes(dims) == LET n == Len(dims) IN
+                Cross(n) \cup (IF n >= 2 THEN {[i \in 1..n |-> 3], Twos(n - 1)} ELSE {})   \* Twos(n-1): a dimension is missing
+DimsOf(f) == IF ~f.arr THEN {<<>>}
+             ELSE Dims1 \cup (IF f.ty \in {"int", "str"} \/ Rich THEN Dims2 ELSE {})
+                        \cup (IF f.ty = "int" THEN Dims3 ELSE {})
 
 VARIABLES p, ph, lv      \* lv: levels of p.cons (generator bookkeeping, not part of the program)
 vars == <<p, ph, lv>>
@@ -433,14 +465,14 @@ Start == /\ ph = 0
          /\ \E f \in Families : \E dm \in DimsOf(f) :
               \E d \in {Decl} \cup (IF f.arr THEN {ArrL(s) : s \in Shapes(dm)} ELSE DefTab[<<f.ty, f.nu>>]) :
                 p' = [ty |-> f.ty, nu |-> f.nu, dims |-> dm, def |-> d, mods |-> <<>>,
-                      cons |-> <<>>, place |-> "def", by |-> Nil]
+                      cons |-> <<>>, place |-> "def", by |-> Nil, via |-> "direct"]
          /\ ph' = 1 /\ lv' = {}
 
 \* only the final assignment may be a fine value; two-step chains only in coarse values (none allowed between)
 AddMod == /\ ph = 1 /\ Len(p.mods) < MaxMods
           /\ \A l \in Range(Assigned(p)) : (IF ~IsArr(p) /\ IsFine(p, l) THEN l.t = "none" ELSE TRUE)
           /\ IF IsArr(p)
-             THEN \E s \in Shapes(p.dims) : /\ (Len(p.dims) = 2 /\ ~Rich) => Len(p.mods) = 0
+             THEN \E s \in Shapes(p.dims) : /\ (Len(p.dims) >= 2 /\ ~Rich) => Len(p.mods) = 0
                                             /\ p' = [p EXCEPT !.mods = Append(@, ArrL(s))]
              ELSE \E m \in ModTab[<<p.ty, p.nu>>] :
                      /\ Len(p.mods) >= 1 => ~IsFine(p, m)
@@ -448,10 +480,14 @@ AddMod == /\ ph = 1 /\ Len(p.mods) < MaxMods
           /\ ph' = 1 /\ lv' = lv
 
 Coarse(q) == \A l \in Range(Assigned(q)) : ~IsFine(q, l)
+\* the node reaches the environment through an import (coarse values; arrays too)
+SetVia == /\ ph = 1 /\ (IF IsArr(p) THEN TRUE ELSE Coarse(p)) /\ (IF Len(p.dims) <= 1 THEN TRUE ELSE Rich)
+          /\ \E v \in {"local", "source"} : p' = [p EXCEPT !.via = v]
+          /\ ph' = 2 /\ lv' = lv
 SetBy == /\ ph = 1 /\ ~IsArr(p) /\ p.mods # <<>> /\ Coarse(p)
          /\ \E y \in ByPool(p.ty, p.nu) : p' = [p EXCEPT !.by = y]
          /\ ph' = 2 /\ lv' = lv
-SetPlace == /\ ph \in {1, 2} /\ ~IsArr(p) /\ p.mods # <<>> /\ Coarse(p)
+SetPlace == /\ ph \in {1, 2} /\ ~IsArr(p) /\ p.mods # <<>> /\ Coarse(p) /\ p.via = "direct"
             /\ p' = [p EXCEPT !.place = "mod"]
             /\ ph' = 3 /\ lv' = lv
 AddCons == /\ ph \in 1..4 /\ ~IsArr(p)
@@ -462,7 +498,7 @@ AddCons == /\ ph \in 1..4 /\ ~IsArr(p)
                  /\ lv' = lv \cup {e.l}
            /\ ph' = 4
 
-Next == Start \/ AddMod \/ SetBy \/ SetPlace \/ AddCons
+Next == Start \/ AddMod \/ SetVia \/ SetBy \/ SetPlace \/ AddCons
 Spec == Init /\ [][Next]_vars
 
 IsProgram == ph >= 1 /\ ((p.by.t # "nil" \/ p.place = "mod") => p.cons # <<>>)
